@@ -141,6 +141,17 @@ pub fn reveal_cases() -> Vec<RevealCase> {
                 }
             }
         }
+        // every structured payload of this kind (all enumerated codes, truncated and over-long forms, invalid UTF-8, ...)
+        // arrives at the per-type decoder through reveal exactly as it would arrive from the wire
+        for (pi, pl) in payloads_of(t as i64, false).iter().enumerate().filter(|(_, pl)| pl.len() <= 200) {
+            let mut p = rf::enc16(6 + pl.len() as u64);
+            p.extend(pl.iter());
+            while p.len() % 16 != 0 {
+                p.push(0xa5);
+            }
+            let c = rf::encrypt(&p, &rf::enc16(t as u64), b"hello", &rv);
+            out.push(RevealCase { name: format!("t{t}-payload{pi}-len{}", pl.len()), t, value: c, secret: b"hello".to_vec(), rv });
+        }
         // 64 blocks: the largest original length fits
         let mut p = rf::enc16(1023);
         p.extend(ascii(1022, 5));
@@ -1067,6 +1078,23 @@ pub fn c20(ctx: &mut Ctx) {
             p.extend(bad.iter());
             with_record(format!("non-utf8-k{k}-{i}"), rec(k as u16, &p), E::InvalidUtf8(k as u16));
         }
+    }
+    // the single fault sits in the Message Type AVP itself (the first AVP): its own error is reported, not masked
+    for x in [0u16, 5, 13, 17, 255, 256, 65535] {
+        let mut body = rec(0, &x.to_be_bytes());
+        body.extend(rec(7, b"host"));
+        body.extend(rec(9, &[0, 5]));
+        faults.push((format!("first-unknown-message-type-{x}"), control_ok(&body), STRICT, vec![E::UnknownMessageType(x)]));
+    }
+    for n in 0..2usize {
+        let mut body = rec(0, &[0u8, 1][..n]);
+        body.extend(rec(7, b"host"));
+        faults.push((format!("first-truncated-message-type-len{n}"), control_ok(&body), STRICT, vec![E::IncompleteAVP(0)]));
+    }
+    for x in [1u16, 9, 65535] {
+        let mut body = rec_raw(1, 8, x, 0, &[0, 1]);
+        body.extend(rec(7, b"host"));
+        faults.push((format!("first-vendor-{x}"), control_ok(&body), STRICT, vec![E::UnsupportedVendorId(x)]));
     }
     // offset size beyond the message
     for (w, with_s) in [(0x4020u16, false), (0x5020, true), (0xc020, false)] {
